@@ -16,7 +16,7 @@ pub fn parts(id: &str, thorough: bool) -> Vec<Part> {
         "C15" => e2("C15kinds", 60_000, 2_000_000, "kind in {Arc, Rc, Option of either, sync::Weak, rc::Weak, Option of Weak, dangling Weak, Weak with dropped target, None} x pointee in {ZST, u8, u64, [u8;24], String, align(64)} x extra strong 0-3 x extra weak 0-3 x 1-11 trait calls / container round trips; shadow model of (strong, weak) and identity. Non-trivial: an empty value, a dropped target or outstanding weak references were involved."),
         "C16" => e2("C16seq", 30_000, 500_000, "store sequences (pool value, fresh, same again, A-B-A, None) x loads of up to 4 caches, clones and 3 mapped caches on the real Arc: Cache::load == current value, strong counts == container + caches that last returned it, superseded value released by the observing load, mapped cache == projection. Non-trivial: a cache observed a change."),
         "C17" => e2("C17seq", 30_000, 500_000, "9 projection chains (Map depth 1-4 over &, Arc, Box<dyn DynAccess>, AccessConvert, the map method, direct Access<T>) x store/load/deref/drop sequences: every deref yields value and address of the snapshot current at the guard's load, the snapshot stays alive exactly as long as a guard needs it, static and dynamic dispatch agree, Constant yields its value. Non-trivial: a store happened during the life of a guard that was dereferenced afterwards."),
-        "C20" => e2("C20serde", 40_000, 1_000_000, "values of a serde data model (unit, bool, ints, char, strings, options, sequences, maps, tuples, newtypes, structs, enum variants; nested to depth 3; in a fifth of the cases a zero-sized or fixed pointee instead: (), unit struct, empty struct, [u8;0], PhantomData, tuple struct of (), u64, (u8,())) for ArcSwap<V> and ArcSwapOption<V> (None included) under the three default-constructible strategies: identical token stream through a recording Serializer, identical JSON, deserialization (from text and from serde_json::Value) equals deserializing the pointer with strong count 1, round trip. Non-trivial: value nested, None, zero-sized pointee, or containing a string/sequence."),
+        "C20" => e2("C20serde", 40_000, 1_000_000, "values of a serde data model (unit, bool, ints, char, strings, options, sequences, maps, tuples, newtypes, structs, enum variants; nested to depth 3; in a fifth of the cases a zero-sized or fixed pointee instead: (), unit struct, empty struct, [u8;0], PhantomData, tuple struct of (), u64, (u8,())) for ArcSwap<V> and ArcSwapOption<V> (None included) under the three default-constructible strategies: identical token stream through a recording Serializer, identical JSON, deserialization (from text and from serde_json::Value) equals deserializing the pointer with strong count 1, round trip, and Deserialize::deserialize_in_place into a container on which a guard is held (guard keeps its value, counts exact). Non-trivial: value nested, None, zero-sized pointee, or containing a string/sequence."),
         _ => {}
     }
     drop(e2);
